@@ -62,17 +62,16 @@ Theorem C12_rename_to_new_name_in_place :
 Proof. exact rename_fresh. Qed.
 Print Assumptions C12_rename_to_new_name_in_place.
 
+(* rename a,b then b,a is the identity when b is new -- or when b is a itself (Mlrmap.Rename(a, a) is a no-op since the
+   repair bdf02f36c in /repo; before it the field was unlinked) *)
 Theorem C12_rename_inverse :
-  forall a b r, wf r -> ~ In b (keys r) -> rename [b; a] (rename [a; b] r) = r.
-Proof. exact rename_inverse. Qed.
+  forall a b r, wf r -> (b = a \/ ~ In b (keys r)) -> rename [b; a] (rename [a; b] r) = r.
+Proof. exact rename_inverse_gen. Qed.
 Print Assumptions C12_rename_inverse.
 
-(* the same law is FALSE without "b is new" in the degenerate case b = a: Mlrmap.Rename(a, a) unlinks the field
-   (finding rename-to-same-name-drops-field) *)
-Theorem C12_rename_same_name_refuted :
-  exists a r, wf r /\ rename [a; a] r <> r.
-Proof. exact rename_same_name_witness. Qed.
-Print Assumptions C12_rename_same_name_refuted.
+Theorem C12_rename_same_name_is_identity : forall a r, rename [a; a] r = r.
+Proof. exact rename_same_name. Qed.
+Print Assumptions C12_rename_same_name_is_identity.
 
 (* ---- sort-within-records / regularize: per-record permutations *)
 Theorem C12_sort_within_records_sorted_permutation :
@@ -179,6 +178,14 @@ Theorem C12_nest_implode_explode_fields :
 Proof. exact explode_implode_fields. Qed.
 Print Assumptions C12_nest_implode_explode_fields.
 
+(* implode across fields, for EVERY field name F (regex metacharacters, any bytes): a field that is neither literally
+   F_<decimal digits> nor F itself keeps its name, value and relative order (the pattern is the quoted name since the
+   repair 331a3d347 in /repo) *)
+Theorem C12_nest_implode_fields_bystanders :
+  forall f sep r, filter (implode_bystander f) (implode_fields f sep r) = filter (implode_bystander f) r.
+Proof. exact implode_fields_bystanders. Qed.
+Print Assumptions C12_nest_implode_fields_bystanders.
+
 (* ---- reshape: wide-to-long then long-to-wide gives the record back with the reshaped fields moved to the end
    (others first, then the -i fields that were present, in -i order): the same fields, and the record itself when
    those fields were its last ones in that order.  Side conditions: the key/value column names are new and distinct,
@@ -190,6 +197,27 @@ Theorem C12_reshape_wide_long_wide :
     reshape_l2w ko vo (reshape_w2l ins ko vo r) = [w2l_others ins r ++ w2l_pairs ins r].
 Proof. exact reshape_w2l_l2w. Qed.
 Print Assumptions C12_reshape_wide_long_wide.
+
+(* long-to-wide then wide-to-long (-i the new columns): a group of long rows that share their other fields and have
+   pairwise distinct keys comes back row for row (key/value column names new and distinct; keys not among the other names) *)
+Theorem C12_reshape_long_wide_long :
+  forall ko vo others ps,
+    wf (others ++ ps) -> wf ps -> (forall k, In k (keys ps) -> ~ In k (keys others)) ->
+    ~ In ko (keys others) -> ~ In vo (keys others) -> ko <> vo -> ps <> [] ->
+    flat_map (reshape_w2l (keys ps) ko vo) (reshape_l2w ko vo (map (long_row ko vo others) ps))
+    = map (long_row ko vo others) ps.
+Proof. exact reshape_l2w_w2l. Qed.
+Print Assumptions C12_reshape_long_wide_long.
+
+(* ---- altkv: values pair up as key/value (a later pair with the same key overwrites in place), an odd last value gets
+   the key <number of pairs + 1> *)
+Theorem C12_altkv_pairs_values :
+  forall r, altkv r =
+    let '(ps, last) := pairs_vals (values r) in
+    let o' := fold_left (fun o p => put (fst p) (snd p) o) ps [] in
+    match last with Some v => put (itoa (1 + N.of_nat (List.length ps))) v o' | None => o' end.
+Proof. exact altkv_spec. Qed.
+Print Assumptions C12_altkv_pairs_values.
 
 (* ---- template: exactly the template names (first occurrence order), record values where present, fill elsewhere *)
 Theorem C12_template_names_and_values :
@@ -209,6 +237,11 @@ Example C12_nonvacuous :
   /\ reorder_f [B "b"; B "x"] r = [(B "b", B ""); (B "x", B "p;q;r"); (B "a", B "1"); (B "a.b", B "3")]
   /\ rename [B "a"; B "new"] r = [(B "new", B "1"); (B "x", B "p;q;r"); (B "b", B ""); (B "a.b", B "3")]
   /\ get (B "x") r = Some (B "p;q;r")
+  /\ altkv r = [(B "1", B "p;q;r"); (B "", B "3")]
+  /\ reshape_l2w (B "K") (B "V") (map (long_row (B "K") (B "V") [(B "id", B "7")]) [(B "x", B "1"); (B "y", B "2")])
+     = [[(B "id", B "7"); (B "x", B "1"); (B "y", B "2")]]
+  /\ implode_fields (B "a.b") ";" [(B "axb_1", B "p"); (B "a.b_1", B "q"); (B "z", B "3"); (B "a.b_2", B "r")]
+     = [(B "axb_1", B "p"); (B "a.b", B "q;r"); (B "z", B "3")]
   /\ label [B "n1"; B "b"] r = [(B "n1", B "1"); (B "b", B "p;q;r"); (B "a.b", B "3")]
   /\ explode_fields (B "x") ";" r = [(B "a", B "1"); (B "x_1", B "p"); (B "x_2", B "q"); (B "x_3", B "r"); (B "b", B ""); (B "a.b", B "3")]
   /\ implode_fields (B "x") ";" (explode_fields (B "x") ";" r) = r
